@@ -1,5 +1,8 @@
 /* contract of bloc::OpEXPExpression::value  (operator **) */
 #define PAYLOAD_IMAGINARY
+#ifdef OPEXP_BASE
+#define EVAL_EXTRA_CLAUSE __CPROVER_ensures((__exc == 0 && __CPROVER_old(g_eval_n) == 0 && V_IS(__CPROVER_return_value, INTEGER) && !V_ISNULL(__CPROVER_return_value)) ==> __CPROVER_return_value->_value.i == OPEXP_BASE)
+#endif
 #include "prelude.h"
 #include "complex_api.h"
 
@@ -11,6 +14,16 @@ ENS_EVAL_BOTH
 /* integer ** non-negative integer is total and yields an integer (exactness: see DESIGN, undecided beyond b = 0) */
 PROP(C03) __CPROVER_ensures((g_eval_n == 2 && IS_INT(A1) && IS_INT(A2) && V_I(A2) >= 0) ==> (OK && V_IS(RET, INTEGER) && !V_ISNULL(RET)))
 PROP(C03) __CPROVER_ensures((g_eval_n == 2 && IS_INT(A1) && IS_INT(A2) && V_I(A2) == 0) ==> (OK && V_I(RET) == 1))
+#ifdef OPEXP_BASE
+/* exactness modulo 2^64 for every exponent 0 <= e < 2^63, for a base with a multiplication-free closed form (the helper ipow is
+ * also proved on its own for 0, 1, -1, 2: contracts/ipow.c; here the operator as a whole, whatever helper it uses).  DOMAIN of this
+ * instantiation: the first operand, when it is a non-null integer, is OPEXP_BASE (real multipliers; one operand is then a constant) */
+#if OPEXP_BASE == 0
+PROP(C03) __CPROVER_ensures((g_eval_n == 2 && IS_INT(A1) && IS_INT(A2) && V_I(A2) >= 0) ==> (OK && V_I(RET) == (V_I(A2) == 0 ? 1 : 0)))
+#elif OPEXP_BASE == 2
+PROP(C03) __CPROVER_ensures((g_eval_n == 2 && IS_INT(A1) && IS_INT(A2) && V_I(A2) >= 0) ==> (OK && V_I(RET) == (V_I(A2) < 64 ? (long)(1ul << V_I(A2)) : 0)))
+#endif
+#endif
 /* a negative exponent yields an integer or OUT_OF_RANGE, nothing else */
 PROP(C03) __CPROVER_ensures((g_eval_n == 2 && IS_INT(A1) && IS_INT(A2) && V_I(A2) < 0) ==> ((OK && V_IS(RET, INTEGER) && !V_ISNULL(RET)) || THROWN_RT(EXC_RT_OUT_OF_RANGE)))
 /* a decimal operand: decimal result, total (the value is libm's pow, assumed) */
